@@ -183,16 +183,28 @@ pub fn run_check(prop: &str, tier: &str) -> i32 {
         "C03" => {
             let s = suites::crash_suites(thorough);
             let plan = crashprops::CrashPlan { crash: true, layout_tag: "C10", nest: 0, reopen_cycles: 0, sector_tear: true, layout: false, probe_auto_ts: false, continue_after: false };
-            crashprops::crash_check(prop, s, &["C03"], plan, budget * 0.4, &mut report);
+            crashprops::crash_check(prop, s, &["C03"], plan, budget * 0.35, &mut report);
             // the same suites without sector tearing go deeper; most of the time goes to the
             // overwrite / reuse chains on tiny devices (see `suite_weight`)
             let s = suites::crash_suites(thorough);
             let plan = crashprops::CrashPlan { crash: true, layout_tag: "C10", nest: 0, reopen_cycles: 0, sector_tear: false, layout: false, probe_auto_ts: false, continue_after: false };
-            crashprops::crash_check("C03-deep", s, &["C03"], plan, budget * 0.3, &mut report);
+            crashprops::crash_check("C03-deep", s, &["C03"], plan, budget * 0.25, &mut report);
             // a crash inside recovery's own repair writes is a crash instant too: nested images
             let s = suites::crash_suites(thorough);
             let plan = crashprops::CrashPlan { crash: true, layout_tag: "C10", nest: if thorough { 2 } else { 1 }, reopen_cycles: 0, sector_tear: false, layout: false, probe_auto_ts: false, continue_after: false };
-            crashprops::crash_check(prop, s, &["C03"], plan, budget * 0.3, &mut report);
+            crashprops::crash_check(prop, s, &["C03"], plan, budget * 0.25, &mut report);
+            // "... not older than the last acknowledged one" under schedules: crash images of flush
+            // acknowledgements racing the background flusher. A key the reopened store EXPOSES with a
+            // generation older than the acknowledged one is this property's business (a key that is
+            // missing altogether is C02's alone).
+            let cache = std::sync::Mutex::new(std::collections::HashMap::new());
+            let judge = |p: &schedprops::Program, ex: &schedprops::Exec| -> Vec<String> {
+                schedprops::judge_acknowledged(p, ex, &cache)
+                    .into_iter()
+                    .map(|m| if m.starts_with("C02:") && m.contains("recovered as (value") { format!("C03: an exposed key carries a generation older than the last acknowledged one - {m}") } else { m })
+                    .collect()
+            };
+            schedprops::run_programs(c08::ack_programs(), if thorough { 3 } else { 2 }, 4000, budget * 0.15, &judge, None, &["C03"], &mut report);
         }
         "C04" => {
             let s = suites::crash_suites(thorough);
